@@ -60,9 +60,11 @@ import (
 // There is another problem: the call of http.Serve(WsAcceptor, WsHandshakeHandler) is async. We don't know when
 // the instance of WsHandshakeHandler will have the util.WebSocketConn ready. We synchronise this using a channel.
 // A channel called finished will be provided to an instance of WsHandshakeHandler upon its creation. Once
-// WsHandshakeHandler.ServeHTTP has the reference to util.WebSocketConn ready, it will write to finished.
-// Outside, immediately after the call to http.Serve(WsAcceptor, WsHandshakeHandler), we read from finished so that the
-// execution will block until the reference to util.WebSocketConn is ready.
+// WsHandshakeHandler.ServeHTTP has the reference to util.WebSocketConn ready, it will write nil to finished; if the
+// upgrade fails it writes the error, and if net/http closes the connection without the handler having upgraded it
+// (ConnState StateClosed) an error is written as well.
+// Outside, immediately after serving the WsAcceptor, we read from finished so that the execution will block until the
+// reference to util.WebSocketConn is ready, or it is known that it never will be.
 
 // since we need to read the first packet from the client to identify its protocol, the first packet will no longer
 // be in Conn's buffer. However, websocket.Upgrade relies on reading the first packet for handshake, so we must
@@ -117,22 +119,36 @@ func (w *wsOnceListener) Addr() net.Addr {
 }
 
 type wsHandshakeHandler struct {
-	conn     net.Conn
-	finished chan struct{}
+	conn net.Conn
+	// finished receives the outcome of the upgrade exactly once: nil when conn is ready, the error otherwise
+	// (whoever reports first wins, later reports are dropped)
+	finished chan error
 }
 
 // the handler to turn a net.Conn into a websocket.Conn
 func newWsHandshakeHandler() *wsHandshakeHandler {
-	return &wsHandshakeHandler{finished: make(chan struct{})}
+	return &wsHandshakeHandler{finished: make(chan error, 1)}
 }
+
+func (ws *wsHandshakeHandler) done(err error) {
+	select {
+	case ws.finished <- err:
+	default:
+	}
+}
+
+// errWsNotUpgraded is reported when net/http is through with the connection and the handler has not upgraded it
+// (the request was refused before it reached the handler, or the connection was lost)
+var errWsNotUpgraded = errors.New("connection closed before it was upgraded to websocket")
 
 func (ws *wsHandshakeHandler) ServeHTTP(w http.ResponseWriter, r *http.Request) {
 	upgrader := websocket.Upgrader{}
 	c, err := upgrader.Upgrade(w, r, nil)
 	if err != nil {
 		log.Errorf("failed to upgrade connection to ws: %v", err)
+		ws.done(err)
 		return
 	}
 	ws.conn = &common.WebSocketConn{Conn: c}
-	ws.finished <- struct{}{}
+	ws.done(nil)
 }
